@@ -515,6 +515,13 @@ func retryHang(self string, p *core.Prop, ctx *core.Ctx, r *core.Result, seq *at
 			return res[0]
 		}
 	}
+	if len(last) > 600 {
+		// on a long input (a deep nest, a mutated script) seconds of honest, super-linear work in the
+		// lexer, parser or compiler cannot be told from a hang by waiting: only short inputs, where
+		// honest work takes microseconds, give a verdict
+		r.Detail += fmt.Sprintf(" (three isolated runs stalled outside the VM, but the input begun is %d bytes long: no verdict)", len(last))
+		return r
+	}
 	hangsConfirmed.Add(1)
 	in := caseInput(self, p, ctx, r.I)
 	if last != "" {
